@@ -4,3 +4,9 @@ CHECKS = {
          "Every Compile/Parse/MustCompile call on the workload is observed in an isolated worker: panic (recovered), crash (process exit + .cur attribution), non-termination (CPU-time watchdog, re-run alone with 30 s) and the shape of the returned value/error are judged. Held on the enumerated sub-spaces completely and on the sampled rest; nothing is claimed for inputs not generated.",
          "Trusted: Go runtime/recover, getrusage CPU accounting, the harness generators. Inputs bounded to <=256 bytes."),
 }
+CHECKS["C09"] = ("runtime monitoring: totality monitor over a systematic built-in x arity x argument-kind sweep and type-chaotic generated programs, isolated workers with CPU-time watchdog",
+  "Every Eval on the workload runs under recover() in an isolated worker whose current case is persisted before the call: recovered panics (with the first repository frame), process crashes and CPU-budget overruns (2 s, re-run alone with 30 s) are the refuting events. The sweep over (built-in, arity, argument kinds) is exhaustive; programs are sampled. Nothing is claimed for programs not generated.",
+  "Trusted: Go runtime/recover, getrusage, generators. Size-like parameters are bounded by the generator as the property's quantifier prescribes; user recursion is excluded except a bounded-counter shape.")
+CHECKS["C10"] = ("runtime monitoring: result-shape monitor (reflective type walk, json.Marshal, error/result consistency) and Eval-vs-EvalBytes differential on the C09 workload plus malformed input bytes",
+  "Every nil-error result is walked reflectively for values outside the JSON-representable set (and cycles), marshalled, and compared with EvalBytes on the same bytes; malformed inputs must be rejected. The 'ErrUndefined iff no value' clause is decided against the reference evaluator inside the model-based checks.",
+  "Trusted: encoding/json as the definition of valid JSON and of the JSON encoding of a value; programs whose output legitimately depends on Go map order are excluded from the differential (counted in evidence).")
